@@ -19,7 +19,7 @@ use uax29_ranges::{GRAPHEME_CAT_TABLE, INCB_EXTEND_TABLE, INCB_LINKER};
 
 #[derive(Default)]
 struct C11 {
-    /// texts produced by the two segmentation streams (for the tags)
+    /// texts produced by the segmentation-stress stream (for the tag)
     uax: std::collections::HashMap<String, &'static str>,
     /// ranges of GRAPHEME_CAT_TABLE grouped by category index
     by_cat: Vec<Vec<(u32, u32)>>,
@@ -341,7 +341,6 @@ impl Prop for C11 {
         let (n_probe, n_stress) = if tier == Tier::Quick { (48, 65) } else { (0, 33) };
         if pick < n_probe {
             let s = probe_text(scalar(rng.below(N_SCALARS as usize) as u32));
-            self.uax.insert(s.clone(), "probe");
             return mk_input(&s, true);
         }
         if pick < n_stress {
@@ -433,6 +432,12 @@ impl Prop for C11 {
         tags.push(if g { "g".to_string() } else { "cp".to_string() });
         if let Some(t) = self.uax.get(&s) {
             tags.push((*t).to_string());
+        }
+        if let Some(c) = s.chars().last() {
+            // the probe strings around c (random, exhaustive or corpus/C11/uax29_boundaries.case)
+            if g && s.len() > 40 && probe_text(c as u32) == s {
+                tags.push("probe".into());
+            }
         }
         if g && l[1].as_l().map_or(false, |cl| cl.iter().any(|c| c.as_l().map_or(false, |c| c.len() > 1))) {
             // some cluster has more than one code point
